@@ -87,3 +87,23 @@ Proof.
   exact (model_signal_ok d g c ri n nt Hnt Hb Hc He (names_sepb_ok g nt H1) (compile_single_attach d g c Hb Hc) (links_typedb_ok g c H3)).
 Qed.
 Print Assumptions C05_model_signals_2.
+
+(* Part 6: nor are distinct signal names.  Since the repair of defect 8.18 (routers x, y_to_z, x_to_y, z with links
+   x - y_to_z and x_to_y - z were accepted and declared x_to_y_to_z_req twice) the generator -- and the model -- accept
+   a network only if its links have pairwise distinct names, so `names_sepb g nt = true` follows from acceptance too.
+   One decidable side condition is left: links join interfaces and routers only. *)
+Theorem C05_model_names_sep :
+  forall d g c nt, compile d g = Ok c -> names_sepb g nt = true.
+Proof. exact names_sepb_holds. Qed.
+Print Assumptions C05_model_names_sep.
+
+Theorem C05_model_signals_1 :
+  forall d g c ri n nt, net_ok d nt ->
+    build d = Ok g -> compile d g = Ok c -> emit c ri = Ok n ->
+    links_typedb g c = true ->
+    forall l, In l (n_links n) -> fst l = net_type nt -> signal_ok n l.
+Proof.
+  intros d g c ri n nt Hnt Hb Hc He H3.
+  exact (model_signal_ok d g c ri n nt Hnt Hb Hc He (compile_names_sep d g c nt Hc) (compile_single_attach d g c Hb Hc) (links_typedb_ok g c H3)).
+Qed.
+Print Assumptions C05_model_signals_1.
